@@ -305,7 +305,9 @@ func runPattern(run *vk.Run, pattern []int, variant int) {
 				d := string(buf[:runtime.Stack(buf, true)])
 				if watchdog.BlockedUnderEbu(d) {
 					viol("publish-hung", fmt.Sprintf("publish #%d (kind %d) never returned: goroutines are parked below ebu frames", id, k))
-					hung = true
+					// the blocked goroutines stay behind: end this child now, with its summary
+					run.Finish()
+					watchdog.Exit()
 				} else if waited < 30 {
 					continue
 				}
